@@ -216,6 +216,26 @@ def _check_case(case):
                 hi = idx[i + 1] if i + 1 < len(idx) else len(p.items)
                 # window: from the previous segment line to the next one
                 window = [norm(t) for kind, t in p.items[lo + 1:hi] if kind == 'error']
+                if any(msg in w for w in window) and e['level'] in ('st-ele', 'gs-ele', 'isa-ele'):
+                    # ... and not next to the other end of the same envelope as well: an error of the header is none of the trailer
+                    pair = {'ISA': 'IEA', 'IEA': 'ISA', 'GS': 'GE', 'GE': 'GS', 'ST': 'SE', 'SE': 'ST'}[want_id]
+                    opens = {'ISA': 'ISA', 'IEA': 'ISA', 'GS': 'GS', 'GE': 'GS', 'ST': 'ST', 'SE': 'ST'}[want_id]
+                    j = None
+                    rng_ = range(i + 1, len(segs)) if want_id in ('ISA', 'GS', 'ST') else range(i - 1, -1, -1)
+                    for k_ in rng_:
+                        if segs[k_].id == pair:
+                            j = k_
+                            break
+                        if segs[k_].id in (opens, want_id):
+                            break           # the envelope has no other end
+                    if j is not None:
+                        # (element errors follow the line of their segment: what stands in front of it belongs to the segment before)
+                        lo_ = idx[j]
+                        hi_ = idx[j + 1] if j + 1 < len(idx) else len(p.items)
+                        if any(msg in norm(t) for kind, t in p.items[lo_ + 1:hi_] if kind == 'error'):
+                            out.fail('error-message-misplaced:%s' % e['level'], '%s error code %s of segment #%d (%s) is shown again with segment #%d (%s): %r'
+                                     % (e['level'], e['code'], i + 1, want_id, j + 1, pair, msg[:120]))
+                            break
                 if not any(msg in w for w in window):
                     where = 'elsewhere' if any(msg in w for w in all_err_text) else 'nowhere'
                     out.fail('error-message-missing:%s:%s' % (e['level'], where),
